@@ -3,7 +3,7 @@ use super::{
     GraphSnapshot, NodeScanIter, Pattern, ProcedureCallIter, RelationshipDirection, Result, Row,
 };
 
-#[derive(Debug, Clone)]
+#[derive(Debug, Clone, PartialEq)]
 pub enum Plan {
     /// `RETURN 1`
     ReturnOne,
